@@ -708,6 +708,86 @@ def sub_txout(case):
     return rec.result()
 
 
+def sub_txflags(case):
+    """case = {'path': Output|add_output|Input|add_input, 'strict': bool, 'flag': bool, 'wt': witness type,
+    'spec': amount spec}: constructor / flag variants.  Whatever the flags, an amount that reaches a transaction
+    is stored as an int (or the call raises), raw() carries the stored value, totals and fee are ints."""
+    from bitcoinlib.transactions import Output, Input, Transaction
+    path, strict, flag, wt, spec = case['path'], case['strict'], case['flag'], case['wt'], case['spec']
+    rec = Rec()
+    val, ex, kind = _mkval(spec)
+    integral = ex is not None and ex.denominator == 1
+    n = int(ex) if integral else None
+    site = '%s(value=%s)' % (path, kind)
+    out_side = path in ('Output', 'add_output')
+    other = 1000 if not out_side else 3 * 10 ** 16          # the int amount on the other side of the transaction
+    rec.n += 1
+    stage = 'construct'
+    try:
+        t = Transaction(witness_type=wt)
+        if path == 'Output':
+            t.outputs.append(Output(val, lock_script=_LS, strict=strict, spent=flag, change=flag))
+        elif path == 'add_output':
+            t.add_output(val, lock_script=_LS, strict=strict, spent=flag, change=flag)
+        elif path == 'Input':
+            t.inputs.append(Input(_PREV, 0, value=val, strict=strict, double_spend=flag, witness_type=wt))
+        else:
+            t.add_input(_PREV, 0, value=val, strict=strict, double_spend=flag)
+        if out_side:
+            t.add_input(_PREV, 0, value=other)
+        else:
+            t.add_output(other, lock_script=_LS)
+        stored = t.outputs[0].value if out_side else t.inputs[0].value
+        stage = 'raw'
+        t.update_totals()
+        wire = rtx.parse(t.raw()).vout[0]['value']
+    except Exception as e:
+        valid = integral and 0 <= n < (1 << 64)
+        undocumented = path in ('add_output',) and kind not in ('int', 'float')
+        if valid and not undocumented:
+            rec.dev('%s|valid_amount_refused_at_%s|%s' % (site, stage, type(e).__name__),
+                    {'case': case, 'exc': repr(e)[:200]})
+        else:
+            rec.o('refused_at_%s%s' % (stage, '_undocumented_type' if (valid and undocumented) else ''))
+        return rec.result()
+    rec.nt.add(repr(case))
+    if path == 'add_output' and kind not in ('int', 'float'):
+        rec.o('add_output_undocumented_type_accepted')       # documented type is int: observed only
+        return rec.result()
+    det = {'case': case, 'stored': repr(stored), 'wire_output': wire, 'input_total': repr(t.input_total),
+           'output_total': repr(t.output_total), 'fee': repr(t.fee)}
+    if not out_side and ex is not None and ex < 0:
+        rec.o('negative_input_value_kept')                    # inputs are not outputs or fees: observed only
+        return rec.result()
+    bad = []
+    if type(stored) is not int:
+        bad.append('stored_%s_%s' % ('integral' if integral else 'non_integral', type(stored).__name__))
+    elif kind == 'substr':
+        if abs(stored - ex) >= 1:
+            bad.append('subunit_text_off_by_ge_1')
+    elif not integral or stored != n:
+        bad.append('stored_int_differs_from_amount')
+    if out_side:
+        if type(stored) is int and stored < 0:
+            bad.append('negative_amount_serialised')
+        if wire != stored:
+            bad.append('raw_differs_from_stored_value')
+    for name, tot in (('input_total', t.input_total), ('output_total', t.output_total), ('fee', t.fee)):
+        if tot is not None and type(tot) is not int:
+            bad.append('%s_not_int' % name)
+    if type(stored) is int and type(t.input_total) is int and type(t.output_total) is int and t.input_total and \
+            type(t.fee) is int and t.fee != t.input_total - t.output_total:
+        bad.append('fee_differs_from_totals')
+    if bad:
+        # the first item names the root (what is stored); consequences (totals, fee) go into the detail
+        det['all'] = bad
+        rec.dev('%s|%s' % (site, bad[0]), det)
+        rec.o('bad_amount_in_transaction')
+    else:
+        rec.o('int_amount_stored_and_serialised')
+    return rec.result()
+
+
 def sub_fee(case):
     """case = {'ins': [specs], 'outs': [specs]}: totals and fee of a transaction are exact integers."""
     from bitcoinlib.transactions import Output, Input, Transaction
@@ -757,7 +837,7 @@ def sub_words(case):
     return {'n': rec.n, 'out': rec.out, 'nt': []}
 
 
-SUBS = {'win': sub_win, 'forms': sub_forms, 'numeric': sub_numeric, 'nets': sub_nets, 'txout': sub_txout,
+SUBS = {'txflags': sub_txflags, 'win': sub_win, 'forms': sub_forms, 'numeric': sub_numeric, 'nets': sub_nets, 'txout': sub_txout,
         'fee': sub_fee, 'words': sub_words}
 
 
@@ -939,6 +1019,20 @@ def run(ctx):
                     cases.append({'spec': ['str', n, sym, ''], 'net': net})
             cases.append({'spec': ['int', 12345], 'net': net})
         ctx.pmap('txout', cases)
+    if want('txflags'):
+        kinds = [['int', 0], ['int', 1], ['int', 546], ['int', 90000], ['int', SUPPLY], ['int', 2 ** 64 - 1],
+                 ['int', -1], ['int', -90000],
+                 ['float', '0.0'], ['float', '1.0'], ['float', '90000.0'], ['float', '2099999997690000.0'],
+                 ['float', '1.5'], ['float', '0.1'], ['float', '89999.99'], ['float', '28999999.999999996'],
+                 ['float', '-1.0'], ['float', '-0.5'], ['float', 'nan'], ['float', 'inf'],
+                 ['str', 1, 'sat', ''], ['str', 90000, '', 'BTC'], ['str', 123456789, 'm', 'BTC'],
+                 ['str', SUPPLY, '', ''], ['str', -1, 'sat', ''],
+                 ['substr', 15, 'sat'], ['substr', 5, ''], ['substr', 899999, 'm'],
+                 ['Value', 90000, 'sat'], ['Value', 123456789, 'm'], ['Value.from_satoshi', 90000]]
+        cases = [{'path': pth, 'strict': st, 'flag': fl, 'wt': wt, 'spec': k}
+                 for pth in ('Output', 'add_output', 'Input', 'add_input') for st in (True, False)
+                 for fl in (False, True) for wt in ('legacy', 'segwit') for k in kinds]
+        ctx.pmap('txflags', cases)
     if want('fee'):
         fa = [['int', 0], ['int', 1], ['int', 1000], ['str', 10 ** 8, '', 'BTC'], ['str', 1000, 'sat', ''],
               ['str', 150000, 'm', 'BTC'], ['int', SUPPLY], ['Value', 5 * 10 ** 7, 'm']]
